@@ -183,7 +183,8 @@ class C11(Prop):
           'change, stray value), scripted and seeded random_dna (also with previous_dna), DNA comparisons; '
           'plus specs whose custom decision points carry list-enumerating user hooks (root, space element first / '
           'middle / last, inside conditional candidates of single and multi-choices): first_dna, next_dna with '
-          'attach_spec True and False, iter_dna, next_dna on members and on DNAs the hook rejects. Non-trivial: the spec '
+          'attach_spec True and False, iter_dna, next_dna on members and on DNAs the hook rejects; float points with every '
+          'scale hint (None / linear / log / rlog); use_spec is called twice on the same DNA object. Non-trivial: the spec '
           'has at least 2 DNAs or is non-finite; distinct: by case JSON.')
   trusted_base = [
       'translator translate/t_c11.py: shape tables of _space_size, next_value_for_choice, min_remaining_choices and '
